@@ -255,7 +255,7 @@ func allChecks() []CheckSpec {
 				{Fn: "verifC18PortRange", Lemma: "listenUDPInPortRange: bound port inside [min,max] and free; never tries a port outside the range; ErrPort only after every port of the range was tried exactly once and all were busy; min>max rejected without listening; no range => one ephemeral listen; unavailable-address errors abort",
 					Bounds: "range width 1..3 (thorough 1..4) at any base 1..60000, every busy/free/unavailable pattern, any random start", MustReach: []string{"defaults", "inverted", "bound", "exhausted", "unavailable", "done"}},
 				{Fn: "verifC18GatherHost", Lemma: "gatherCandidatesLocal (UDP host path) on the fake net: a host candidate is published for an address iff it is eligible and not link-local (mDNS gather mode publishes link-local ones under the mDNS name); ports inside the range; mDNS name instead of the IP in gather mode; every opened socket adopted or closed",
-					Bounds: "1 interface (IPv4 + IPv6 address, symbolic bytes/flags), 4 network-type lists incl. empty, loopback flag, IP filter, 2 mDNS modes, 3-port range at a symbolic base", MustReach: []string{"done"}},
+					Bounds: "1 interface (IPv4 + IPv6 address, symbolic bytes/flags), 4 network-type lists incl. empty, loopback flag, IP filter, 2 mDNS modes, 3-port range at a symbolic base", MustReach: []string{"mixed-transports", "done"}},
 				{Fn: "verifC18Cycle", Lemma: "GatherCandidates is refused unless the state is New (and needs a handler), cancels the previous cycle; setGatheringState of a cancelled cycle changes and emits nothing, a live one emits exactly one nil candidate on the edge into Complete; Restart cancels the cycle and returns to New",
 					Bounds: "all gathering states, handler present/absent, cancelled/live context, both target states", MustReach: []string{"refused", "started", "cancelled-cycle", "complete", "done"}},
 				{Fn: "verifC18SrflxBase", Lemma: "the base of server-reflexive candidates through the real gatherCandidatesSrflx: with an interface filter, an IP filter or both, every STUN socket the agent opens is bound on an address the filters accept (never the wildcard address) and the published candidate's related address is such an address; only without filters the wildcard address is used",
